@@ -667,7 +667,7 @@ func (vc *FuncVC) assumeParamLemmaAt(name string, lf *FuncContract, persistent b
 			body.S = strings.ReplaceAll(body.S, fmt.Sprintf("(select %s %s)", t.S, x), name)
 			rewrites = append(rewrites, [2]string{fmt.Sprintf("(select %s %s)", t.S, x), name})
 		}
-		if srt.IsArr() {
+		if srt.IsArr() && vc.boxed() {
 			// quantify over an Int handle instead of an array-sorted variable
 			box, unbox := vc.boxFns(srt)
 			id := fmt.Sprintf("id?%d", j)
